@@ -3,6 +3,7 @@
 // op lines (see lean/Driver/C12.lean):
 //   gc <flags> <ud> <undefs> <defined> <dir>*     -> "C <cfg>,<cfg>,... | L <r.r>/<r>/..."   ("L ?": not a well nested tree)
 //   sel <force> <maxopt> <maxproj> <ud> <cfgs> -> "M <Settings::getMaxConfigs()>"        (selection itself: CLI tie)
+//   th <hexcode>                              -> "H <TokenList::calculateHash() of the tokenized code>"
 //   src <dir>*                                -> hex of the printed file (used by the CLI tie and the docs)
 #include "common.h"
 #include "preprocessor.h"
@@ -10,6 +11,7 @@
 #include "errorlogger.h"
 #include "standards.h"
 #include "path.h"
+#include "tokenlist.h"
 #include <simplecpp.h>
 #include <set>
 #include <algorithm>
@@ -40,6 +42,13 @@ bool printDir(const std::string& w, std::string& out) {
     switch (w[0]) {
     case 'r': {
         const long k = std::stol(arg);
+        if (k >= 1000) {
+            // twin regions 1000+2j / 1000+2j+1: the same multiset of tokens, the out-of-bounds write in a different line
+            const long j = (k - 1000) / 2;
+            const std::string bad = "a[" + std::to_string(100 + j) + "]=0;", good = "a[0]=0;";
+            out += "void p" + std::to_string(j) + "(void){int a[2]; " + ((k % 2 == 0) ? bad : good) + "\n " + ((k % 2 == 0) ? good : bad) + "}\n";
+            return true;
+        }
         out += "void f" + std::to_string(k) + "(void){int a[1]; a[" + std::to_string(k + 1) + "]=0;}\n";
         return true;
     }
@@ -72,6 +81,14 @@ std::string regionsOf(const std::string& code) {
         while (e < code.size() && std::isdigit(static_cast<unsigned char>(code[e]))) ++e;
         if (e > q) rs.insert(std::stol(code.substr(q, e - q)));
     }
+    for (size_t p = code.find("void p"); p != std::string::npos; p = code.find("void p", p + 1)) {
+        size_t q = p + 6, e = q;
+        while (e < code.size() && std::isdigit(static_cast<unsigned char>(code[e]))) ++e;
+        if (e == q) continue;
+        const long j = std::stol(code.substr(q, e - q));
+        const size_t pb = code.find("[ " + std::to_string(100 + j) + " ]", e), pg = code.find("[ 0 ]", e);
+        rs.insert(1000 + 2 * j + ((pb != std::string::npos && (pg == std::string::npos || pb < pg)) ? 0 : 1));
+    }
     if (rs.empty()) return "-";
     std::string out;
     for (long r : rs) { if (!out.empty()) out += '.'; out += std::to_string(r); }
@@ -90,6 +107,13 @@ int main() {
                 std::string code; bool ok = true;
                 for (size_t i = 1; i < f.size(); ++i) ok = ok && printDir(f[i], code);
                 std::cout << (ok ? hex(code) : std::string("bad-op")) << std::endl;
+            } else if (f[0] == "th" && f.size() == 2) {
+                // the real TokenList::calculateHash() of the token list of a piece of code
+                Settings settings;
+                TokenList list{settings, Standards::Language::C};
+                const std::string code = unhex(f[1]);
+                list.createTokensFromBuffer(code.data(), code.size());
+                std::cout << "H " << list.calculateHash() << std::endl;
             } else if (f[0] == "sel" && f.size() == 6) {
                 Settings s;
                 s.force = f[1] == "1";
